@@ -99,10 +99,57 @@ func verifC17Plan(changes []schema.Change) {
 			verifAssert(strings.HasPrefix(rev, "CREATE"), "DROP INDEX is reversed by re-creating the index")
 		}
 	}
+	// what reverses one change never carries the forward statement of another
+	for i, c := range p.Changes {
+		rs, _ := c.ReverseStmts()
+		for j, o := range p.Changes {
+			if i == j || strings.HasPrefix(o.Cmd, "PRAGMA") {
+				continue
+			}
+			for _, r := range rs {
+				verifAssert(r != o.Cmd, "a reverse statement is not the forward statement of another change")
+			}
+		}
+	}
 	verifAssert(p.Reversible == all, "Reversible iff every planned change has a reverse statement")
 	if !all {
 		verifReach("irreversible")
 	}
+}
+
+// Multi family: two top-level changes in either order out of {add table, drop table t1, drop table t0,
+// modify table}: what reverses one change never carries a statement of another.
+func VerifHarness_C17_postgres_multi() {
+	sch := schema.New("main")
+	mk := func(name string) *schema.Table {
+		t := schema.NewTable(name).SetSchema(sch)
+		id := schema.NewIntColumn("id", "integer")
+		v := schema.NewIntColumn("v", "integer")
+		t.AddColumns(id, v).SetPrimaryKey(schema.NewPrimaryKey(id))
+		t.AddIndexes(schema.NewIndex("i_" + name).AddColumns(v))
+		return t
+	}
+	t0, t1, t2 := mk("t0"), mk("t1"), mk("t2")
+	cat := func(i int) schema.Change {
+		switch i {
+		case 0:
+			return &schema.AddTable{T: t2}
+		case 1:
+			return &schema.DropTable{T: t1}
+		case 2:
+			return &schema.DropTable{T: t0}
+		}
+		return &schema.ModifyTable{T: t0, Changes: []schema.Change{&schema.AddColumn{C: schema.NewIntColumn("w", "integer")}}}
+	}
+	a := verifChoice("first", 4)
+	b := verifChoice("second", 3)
+	if b >= a {
+		b++
+	}
+	if a+b == 5 { // drop t0 and modify t0 do not go together
+		return
+	}
+	verifC17Plan([]schema.Change{cat(a), cat(b)})
 }
 
 // verifIdentAfter returns the token following the keyword (the identifier).
